@@ -217,7 +217,7 @@ def edit_distance_one(seq, legal_list):
     return False
 
 
-def server_flight_sequences(ctx, maxlen, part, nparts, psk):
+def server_flight_sequences(ctx, maxlen, part, nparts, psk, leaf="ed25519"):
     import aioquic.tls as T
     from vlib import endpoints as E, tlsbench as B, reftls as L
 
@@ -264,10 +264,10 @@ def server_flight_sequences(ctx, maxlen, part, nparts, psk):
         i += 1
         if i % nparts != part:
             continue
-        with E.pinned(("c11-seq", psk)):
+        with E.pinned(("c11-seq", psk, leaf)):
             c = B.Ctx(True, session_ticket=ticket, client_cert=True)
             ch = c.feed(b"")["INITIAL"]
-            s = B.ref_server(psk_lookup=(lambda ident: psk_secret.get(bytes(ident))) if psk else None)
+            s = B.ref_server(leaf_name=leaf, psk_lookup=(lambda ident: psk_secret.get(bytes(ident))) if psk else None)
             s.receive_client_hello(ch)
             c.feed(s.server_hello(select_psk=True) if psk is True else s.server_hello())
             if psk is True and not s.psk_selected:
@@ -310,10 +310,13 @@ def server_flight_sequences(ctx, maxlen, part, nparts, psk):
                     ctx.violation("one-rtt-keys-released-before-finished", "ONE_RTT keys %r were installed by %s (sequence %s), context state %s" % (one_rtt_after, sym, list(seq[: k + 1]), c.state), {"kind": "seq", "psk": psk, "seq": list(seq)})
                 if c.done() and completed_at is None:
                     completed_at = k
-            legal = legal_server_flight(seq, psk)
+            trusted = leaf == "ed25519"
+            # (with a certificate the client cannot trust - its CertificateVerify is genuine - no flight is legal: the refusal must come with
+            # CertificateVerify and leave the state where it was)
+            legal = legal_server_flight(seq, psk) and trusted
             # a legal flight followed by extra messages: completion happens at the legal prefix
-            prefix_legal = any(legal_server_flight(seq[:n], psk) for n in range(len(seq) + 1))
-            case = {"kind": "seq", "psk": psk, "seq": list(seq)}
+            prefix_legal = trusted and any(legal_server_flight(seq[:n], psk) for n in range(len(seq) + 1))
+            case = {"kind": "seq", "psk": psk, "seq": list(seq), "leaf": leaf}
             near = edit_distance_one(seq, legal_list)
             ctx.case(("sf", psk, seq), nontrivial=near and not legal, classes=["server-flight" + ("-psk" if psk else ""), "server-flight:" + ("legal" if legal else "illegal")])
             if c.done() and not prefix_legal:
@@ -391,7 +394,7 @@ def replay(ctx, case):
     if k == "table":
         table(ctx, case["state"])
     elif k == "seq":
-        server_flight_sequences(ctx, max(len(case["seq"]), 1), 0, 1, case["psk"])
+        server_flight_sequences(ctx, max(len(case["seq"]), 1), 0, 1, case["psk"], case.get("leaf", "ed25519"))
     elif k == "cseq":
         client_flight_sequences(ctx, max(len(case["seq"]), 1), 0, 1, case["request"])
 
@@ -406,6 +409,8 @@ def plan(tier, seed):
     for p in range(2):
         t.append(("server-flight-psk-part%d" % p, {"fn": "sf", "maxlen": 4 if q else 5, "part": p, "nparts": 2, "psk": True}))
     t.append(("server-flight-psk-offered-not-selected", {"fn": "sf", "maxlen": 4 if q else 5, "part": 0, "nparts": 1, "psk": "offered"}))
+    for leaf in ("selfsigned", "foreign", "expired", "wrongname"):
+        t.append(("server-flight-untrusted-%s" % leaf, {"fn": "sf", "maxlen": 4 if q else 5, "part": 0, "nparts": 1, "psk": False, "leaf": leaf}))
     for req in (False, True):
         for p in range(2):
             t.append(("client-flight-%s-part%d" % ("requested" if req else "plain", p), {"fn": "cf", "maxlen": 5 if q else 6, "part": p, "nparts": 2, "request": req}))
@@ -416,7 +421,7 @@ def run_task(ctx, name, fn, **kw):
     if fn == "table":
         table(ctx, kw["state"])
     elif fn == "sf":
-        server_flight_sequences(ctx, kw["maxlen"], kw["part"], kw["nparts"], kw["psk"])
+        server_flight_sequences(ctx, kw["maxlen"], kw["part"], kw["nparts"], kw["psk"], kw.get("leaf", "ed25519"))
     else:
         client_flight_sequences(ctx, kw["maxlen"], kw["part"], kw["nparts"], kw["request"])
 
